@@ -28,3 +28,7 @@ add('C14', 'exploration', 'property-based testing on a virtual clock with deadli
     'A real endpoint runs on a virtual millisecond clock against a scripted peer; traffic, user calls and silence are placed at deadline-1ms/deadline/deadline+1ms of each timer, ACK delays drive the segment-size controller, and the timestamped octet log is checked against the negotiated parameters; the keepalive^2 x idle grid is enumerated.',
     'Virtual time (no wall clock); ACKs at least 1 ms after the segment when the controller is on; the closing clause is only judged when an idle time is configured.',
     'DESIGN.md section 3 C14')
+add('C15', 'exploration', 'exhaustive decision-table enumeration + property-based testing over generated certificates, against an independent policy function',
+    'The TLS negotiation table (96 cells) is enumerated completely and certificates with generated SAN multisets are presented through a scripted TLS socket; what the real endpoint does (SESS_INIT, established, SESS_TERM contact-failure, close, authn parameters) is compared with a policy function written from the property text.',
+    'Real TLS handshakes and chain validation are out of scope (scripted socket, only Config.get_ssl_context() replaced); peers are reached by IP literal as tcpcl.agent.Agent.connect() does, so no DNS-ID reference exists.',
+    'DESIGN.md section 3 C15')
